@@ -102,7 +102,7 @@ theorem write_eq (alg : MD σ) (d : Digest σ) (p : Bytes) (hx : d.x.length < 64
       cases hd : d.x with
       | nil => rfl
       | cons a t => rw [hd] at h0; simp at h0
-    simp only [h0, ↓reduceIte, hnil, List.nil_append]
+    simp only [hnil, List.length_nil, Nat.lt_irrefl, ↓reduceIte, List.nil_append]
     generalize blocksGo alg.block _ _ = r
     obtain ⟨s2, rest⟩ := r
     cases rest <;> simp
